@@ -3,8 +3,11 @@
 // ---------------------------------------------------------------------------------------------
 
 /// a paragraph as an ordered list of (name, value) pairs
+pub open spec fn fields_view(fs: Seq<Field>) -> Seq<(Seq<char>, Seq<char>)> {
+    fs.map_values(|f: Field| (f.name@, f.value@))
+}
 pub open spec fn para_view(p: Paragraph) -> Seq<(Seq<char>, Seq<char>)> {
-    p.fields@.map_values(|f: Field| (f.name@, f.value@))
+    fields_view(p.fields@)
 }
 
 /// index of the first field called `name`, or -1
@@ -104,4 +107,50 @@ pub open spec fn doc_text(ps: Seq<Paragraph>) -> Seq<char>
 
 impl VxDisplay for Paragraph {
     open spec fn display_spec(&self) -> Seq<char> { fields_text(self.fields@) }
+}
+
+pub open spec fn field_pair(f: Field) -> (Seq<char>, Seq<char>) { (f.name@, f.value@) }
+
+/// Vec::retain with "name differs" is the list model's remove
+pub proof fn lemma_retain_is_remove(fs: Seq<Field>, keep: Seq<bool>, name: Seq<char>)
+    requires keep.len() == fs.len(), forall|i: int| 0 <= i < fs.len() ==> keep[i] == (fs[i].name@ != name)
+    ensures fields_view(filter_by(fs, keep)) == list_remove(fields_view(fs), name)
+    decreases fs.len()
+{
+    reveal(Seq::filter);
+    if fs.len() == 0 {
+        assert(fields_view(filter_by(fs, keep)) =~= list_remove(fields_view(fs), name));
+    } else {
+        lemma_retain_is_remove(fs.drop_last(), keep.drop_last(), name);
+        assert(fields_view(fs).drop_last() =~= fields_view(fs.drop_last()));
+        assert(fields_view(fs).last() == (fs.last().name@, fs.last().value@));
+        if keep.last() {
+            assert(fields_view(filter_by(fs, keep)) =~= fields_view(filter_by(fs.drop_last(), keep.drop_last())).push((fs.last().name@, fs.last().value@)));
+        }
+        assert(fields_view(filter_by(fs, keep)) =~= list_remove(fields_view(fs), name));
+    }
+}
+
+pub proof fn lemma_cont_lines_push(ls: Seq<Seq<char>>, i: int)
+    requires 0 <= i < ls.len()
+    ensures cont_lines(ls.take(i + 1)) == cont_lines(ls.take(i)) + sp() + ls[i] + lf()
+{
+    assert(ls.take(i + 1).drop_last() =~= ls.take(i));
+    assert(ls.take(i + 1).last() == ls[i]);
+}
+pub proof fn lemma_fields_text_push(fs: Seq<Field>, i: int)
+    requires 0 <= i < fs.len()
+    ensures fields_text(fs.take(i + 1)) == fields_text(fs.take(i)) + field_text(fs[i].name@, fs[i].value@)
+{
+    assert(fs.take(i + 1).drop_last() =~= fs.take(i));
+    assert(fs.take(i + 1).last() == fs[i]);
+}
+pub proof fn lemma_doc_text_push(ps: Seq<Paragraph>, i: int)
+    requires 0 <= i < ps.len()
+    ensures
+        doc_text(ps.take(i + 1)) == if i == 0 { fields_text(ps[0].fields@) } else { doc_text(ps.take(i)) + lf() + fields_text(ps[i].fields@) }
+{
+    assert(ps.take(i + 1).drop_last() =~= ps.take(i));
+    assert(ps.take(i + 1).last() == ps[i]);
+    if i == 0 { assert(ps.take(1)[0] == ps[0]); }
 }
